@@ -27,7 +27,7 @@ CONFIG = {
         level="exploration",
         tiers=dict(
             quick=dict(runs=1200, opts=dict(real_frac=0.02, limit=300)),
-            thorough=dict(runs=120000, opts=dict(real_frac=0.01, limit=600)),
+            thorough=dict(runs=80000, opts=dict(real_frac=0.01, limit=600)),
         ),
         det=dict(quick=32, thorough=128),
     ),
@@ -36,7 +36,7 @@ CONFIG = {
         level="exploration",
         tiers=dict(
             quick=dict(runs=160, opts=dict(n_widths=3, n_schedules=2, limit=300)),
-            thorough=dict(runs=12000, opts=dict(n_widths=4, n_schedules=3, w_fidelity=0.05, limit=600)),
+            thorough=dict(runs=5000, opts=dict(n_widths=4, n_schedules=3, w_fidelity=0.3, limit=600)),
         ),
         det=dict(quick=16, thorough=48),
     ),
@@ -45,7 +45,7 @@ CONFIG = {
         level="exploration",
         tiers=dict(
             quick=dict(runs=16, opts=dict(cards_per_case=4, limit=600)),
-            thorough=dict(runs=640, opts=dict(cards_per_case=6, limit=900)),
+            thorough=dict(runs=400, opts=dict(cards_per_case=6, limit=900)),
         ),
         det=dict(quick=8, thorough=24),
     ),
@@ -63,7 +63,7 @@ CONFIG = {
         level="exploration",
         tiers=dict(
             quick=dict(runs=1600, opts=dict()),
-            thorough=dict(runs=160000, opts=dict()),
+            thorough=dict(runs=400000, opts=dict()),
         ),
         det=dict(quick=32, thorough=256),
     ),
